@@ -722,7 +722,7 @@ func (context *layoutContext) makePage(rootBox bo.BlockLevelBoxITF, pageType uti
 		contextOutOfFlow = context.brokenOutOfFlow
 	)
 	context.brokenOutOfFlow = make(map[Box]brokenBox) // new map
-	for _, v := range contextOutOfFlow {
+	for _, v := range sortedBrokenBoxes(contextOutOfFlow) {
 		box, containingBlock := v.box, v.containingBlock
 		box.Box().PositionY = rootBox.Box().ContentBoxY()
 
@@ -742,7 +742,7 @@ func (context *layoutContext) makePage(rootBox bo.BlockLevelBoxITF, pageType uti
 		}
 		outOfFlowBoxes = append(outOfFlowBoxes, outOfFlowBox)
 		if outOfFlowResumeAt != nil {
-			context.brokenOutOfFlow[outOfFlowBox] = brokenBox{box, containingBlock, outOfFlowResumeAt}
+			context.brokenOutOfFlow[outOfFlowBox] = context.newBrokenBox(box, containingBlock, outOfFlowResumeAt)
 		}
 	}
 
